@@ -7,7 +7,11 @@
 //!              reads the tool's stdout while it runs, waits (<= 3 s) for the documents of the successful
 //!              replies sent so far, then kills the tool; exit is `hung`
 //!     decoy  = a second scripted service (answers {"who":"decoy"}) on a neighbouring address
-//!     form   = path | abstract | tcp | resolver | nolisten
+//!     form   = path | abstract | tcp | resolver | nolisten | bridge
+//!              bridge: `varlink -b CMD call METHOD`; CMD = `head -c <request length> > REQ; cat REPLY`, i.e. it consumes
+//!              the request, prints the frames of the case and exits; url is the method alone
+//!     option (close-stdout n): the harness closes its end of the tool's stdout after n documents; the service sends
+//!              the frames after the n-th only then; the exit status is observed as 0 / 1 (any non-zero)
 //!     listen = address template the scripted service listens on; placeholders @DIR@ (fresh temporary
 //!              directory), @ABS@ (unique abstract-socket prefix), @PORT@ (free TCP port)
 //!     url    = the [ADDRESS/]INTERFACE.METHOD argument, same placeholders
@@ -116,7 +120,7 @@ struct Served {
 }
 
 /// accept connections until told to stop; answer the first request of each with `reply`
-fn serve(l: Listener, reply: Vec<u8>, cuts: Vec<usize>, hold: bool, stop: Arc<AtomicBool>) -> std::thread::JoinHandle<Served> {
+fn serve(l: Listener, reply: Vec<u8>, cuts: Vec<usize>, hold: bool, stop: Arc<AtomicBool>, gate: Option<(usize, Arc<AtomicBool>)>) -> std::thread::JoinHandle<Served> {
     std::thread::spawn(move || {
         let mut out = Served { conns: 0, log: Vec::new() };
         loop {
@@ -138,7 +142,20 @@ fn serve(l: Listener, reply: Vec<u8>, cuts: Vec<usize>, hold: bool, stop: Arc<At
                                 out.log.push(buf);
                                 if first {
                                     first = false;
-                                    write_in_pieces(&mut w, &reply, &cuts);
+                                    match &gate {
+                                        Some((at, release)) => {
+                                            // the part up to `at` now, the rest when the harness says so
+                                            let at = (*at).min(reply.len());
+                                            write_in_pieces(&mut w, &reply[..at], &cuts);
+                                            let deadline = Instant::now() + Duration::from_secs(5);
+                                            while !release.load(Ordering::SeqCst) && Instant::now() < deadline {
+                                                std::thread::sleep(Duration::from_millis(1));
+                                            }
+                                            let _ = w.write_all(&reply[at..]);
+                                            let _ = w.flush();
+                                        }
+                                        None => write_in_pieces(&mut w, &reply, &cuts),
+                                    }
                                     if !hold {
                                         w.shut_wr();
                                     }
@@ -334,11 +351,19 @@ fn run_cli(input: &Sx) -> Sx {
     let url = subst(&url_t);
 
     let stop = Arc::new(AtomicBool::new(false));
-    let main_srv = if form == "nolisten" { None } else { bind(&listen).map(|l| serve(l, reply, cuts, keep_open, stop.clone())) };
+    // (close-stdout n): the frames after the n-th are held back until the harness has closed the tool's stdout
+    let close_after: Option<usize> = tagged("close-stdout").and_then(|t| t.get(1).and_then(|n| n.as_usize()));
+    let release = Arc::new(AtomicBool::new(false));
+    let gate = close_after.map(|n| {
+        let body: Vec<Sx> = l[7].as_list().unwrap()[1..].iter().filter(|f| f.as_list().map(|x| x[0].as_atom() != Some("cuts")).unwrap_or(false)).take(n).cloned().collect();
+        (frames_to_bytes(&body).len(), release.clone())
+    });
+    let bridge_reply = reply.clone();
+    let main_srv = if form == "nolisten" || form == "bridge" { None } else { bind(&listen).map(|l| serve(l, reply, cuts, keep_open, stop.clone(), gate)) };
     let decoy_srv = decoy_t.map(|d| subst(&d)).and_then(|d| bind(&d)).map(|l| {
         let mut rb = serde_json::to_vec(&json!({"parameters": {"who": "decoy"}})).unwrap();
         rb.push(0);
-        serve(l, rb, Vec::new(), false, stop.clone())
+        serve(l, rb, Vec::new(), false, stop.clone(), None)
     });
     // the resolver stub answers Resolve with the address of the scripted service
     let resolver_addr = format!("unix:{}/resolver", dir.to_str().unwrap());
@@ -346,7 +371,7 @@ fn run_cli(input: &Sx) -> Sx {
     let res_srv = if form == "resolver" {
         let mut rb = serde_json::to_vec(&json!({"parameters": {"address": listen}})).unwrap();
         rb.push(0);
-        bind(&resolver_addr).map(|l| serve(l, rb, Vec::new(), false, stop.clone()))
+        bind(&resolver_addr).map(|l| serve(l, rb, Vec::new(), false, stop.clone(), None))
     } else {
         None
     };
@@ -369,6 +394,19 @@ fn run_cli(input: &Sx) -> Sx {
     }
     if color != "absent" {
         cmd.arg("--color").arg(&color);
+    }
+    let req_file = dir.join("bridge-req");
+    if form == "bridge" {
+        let reply_file = dir.join("bridge-reply");
+        let _ = std::fs::write(&reply_file, &bridge_reply);
+        // the request exactly as the client serializes it
+        let argv: Value = args.as_ref().and_then(|a| serde_json::from_str(a).ok()).unwrap_or(Value::Null);
+        let mut rq = varlink::Request::create(url.clone(), Some(argv));
+        if more {
+            rq.more = Some(true);
+        }
+        let n = serde_json::to_string(&rq).unwrap().len() + 1;
+        cmd.arg("-b").arg(format!("head -c {} > {}; cat {}", n, req_file.to_str().unwrap(), reply_file.to_str().unwrap()));
     }
     if form == "resolver" {
         cmd.arg("-R").arg(&resolver_addr);
@@ -425,6 +463,7 @@ fn run_cli(input: &Sx) -> Sx {
     // stdout is read while the tool runs: what has been printed so far is observable at any time
     let out_buf: Arc<Mutex<Vec<u8>>> = Arc::new(Mutex::new(Vec::new()));
     let out_buf2 = out_buf.clone();
+    let release2 = release.clone();
     let t_out = std::thread::spawn(move || {
         let mut tmp = [0u8; 4096];
         loop {
@@ -432,7 +471,15 @@ fn run_cli(input: &Sx) -> Sx {
                 Ok(0) | Err(_) => break,
                 Ok(n) => out_buf2.lock().unwrap().extend_from_slice(&tmp[..n]),
             }
+            if let Some(k) = close_after {
+                if count_docs(&out_buf2.lock().unwrap()) >= k {
+                    break;
+                }
+            }
         }
+        // the reader goes away (for (close-stdout n): while the tool is still running), then the service goes on
+        drop(so);
+        release2.store(true, Ordering::SeqCst);
     });
     let t_err = std::thread::spawn(move || {
         let mut v = Vec::new();
@@ -470,12 +517,24 @@ fn run_cli(input: &Sx) -> Sx {
     let stderr = t_err.join().unwrap_or_default();
     stop.store(true, Ordering::SeqCst);
     let served = main_srv.map(|h| h.join().unwrap()).unwrap_or(Served { conns: 0, log: Vec::new() });
+    let served = if form == "bridge" {
+        match std::fs::read(&req_file) {
+            Ok(mut b) if !b.is_empty() => {
+                if b.last() == Some(&0) {
+                    b.pop();
+                }
+                Served { conns: 1, log: vec![b] }
+            }
+            _ => Served { conns: 0, log: Vec::new() },
+        }
+    } else {
+        served
+    };
     let decoy_conns = decoy_srv.map(|h| h.join().unwrap().conns).unwrap_or(0);
     if let Some(h) = res_srv {
         let s = h.join().unwrap();
         *resolver_seen.lock().unwrap() = s.log;
     }
-    let _ = std::fs::remove_dir_all(&dir);
 
     // stdout: a sequence of JSON documents
     let esc = stdout.contains(&0x1b);
@@ -506,7 +565,9 @@ fn run_cli(input: &Sx) -> Sx {
     };
     let mut logsx = vec![sx::atom("log")];
     logsx.extend(served.log.iter().map(|f| req_sx(f)));
+    let _ = std::fs::remove_dir_all(&dir);
     let exit = match status.and_then(|s| s.code()) {
+        Some(c) if close_after.is_some() => sx::int(if c == 0 { 0 } else { 1 }),
         Some(c) => sx::int(c as i64),
         None => sx::atom(if hung { "hung" } else { "signal" }),
     };
@@ -521,7 +582,10 @@ fn run_cli(input: &Sx) -> Sx {
             sx::boolean(clean),
             sx::boolean(esc),
             exit,
-            if debug {
+            if close_after.is_some() {
+                // how the tool words "I could not print" is its own business
+                sx::atom("-")
+            } else if debug {
                 // --debug prints the error in its Debug form: only "something was reported" is compared
                 if stderr.is_empty() { sx::atom("-") } else { sx::tagged("msg", vec![sx::atom("debug")]) }
             } else {
@@ -790,7 +854,11 @@ fn gen_case(rng: &mut Rng) -> Case {
     };
     let mut decoy: Option<String> = None;
     let mut hosts = false;
-    let (form, listen, url) = match rng.below(if unshare_works() { 25 } else { 23 }) {
+    let (form, listen, url) = match rng.below(if unshare_works() { 27 } else { 23 + 2 }) {
+        // -b CMD: the connection is the stdio of a command that consumes the request, prints the frames and exits
+        n if n == (if unshare_works() { 25 } else { 23 }) || n == (if unshare_works() { 26 } else { 24 }) => {
+            ("bridge", "-".to_string(), method.clone())
+        }
         23 | 24 => {
             // a host name that resolves to several addresses, the service listens on one of them only
             hosts = true;
@@ -857,7 +925,7 @@ fn gen_case(rng: &mut Rng) -> Case {
     tags.push(format!("addr:{}", form));
     let args = match rng.below(6) {
         0 => sx::atom("-"),
-        1 => {
+        1 if form != "bridge" => {
             tags.push("args:invalid-json".into());
             sx::tagged("args", vec![sx::xs("{not json"), sx::atom("bad")])
         }
@@ -887,7 +955,31 @@ fn gen_case(rng: &mut Rng) -> Case {
     };
     tags.push(format!("tty:stdout={},stderr={}", &tty[0..1], &tty[1..2]));
     let frames = gen_frames(rng, more, &mut tags);
-    let frames = transport(rng, frames, &mut tags);
+    let mut frames = transport(rng, frames, &mut tags);
+    // how many leading frames are successful replies; is anything behind them
+    let (lead, total) = {
+        let fl = frames.as_list().unwrap();
+        let body: Vec<&Sx> = fl[1..].iter().filter(|f| f.as_list().map(|x| x[0].as_atom() != Some("cuts")).unwrap_or(false)).collect();
+        let lead = body.iter().take_while(|f| {
+            let l = f.as_list().unwrap();
+            l[0].as_atom() == Some("f") && l[2].as_list().map(|d| d.len() == 4 && d[2].as_atom() == Some("-")).unwrap_or(false)
+        }).count();
+        (lead, body.len())
+    };
+    let strip_hold = |frames: &Sx| sx::list(frames.as_list().unwrap().iter().filter(|f| f.as_atom() != Some("hold")).cloned().collect());
+    if form == "bridge" {
+        // the command exits after printing: there is no "held open"
+        frames = strip_hold(&frames);
+    }
+    // the reader of the tool's stdout goes away after n documents while more replies are still to come
+    let mut close_stdout: Option<usize> = None;
+    if more && form != "bridge" && lead >= 1 && total > 1 && rng.chance(1, 6) {
+        let n = rng.range(1, lead.min(total - 1));
+        close_stdout = Some(n);
+        frames = strip_hold(&frames);
+        tags.push("stdout:reader-goes-away".into());
+    }
+    let tty = if close_stdout.is_some() { "pp" } else { tty };
     tags.sort();
     tags.dedup();
     Case {
@@ -906,6 +998,9 @@ fn gen_case(rng: &mut Rng) -> Case {
                 }
                 if hosts {
                     v.push(sx::list(vec![sx::atom("hosts")]));
+                }
+                if let Some(n) = close_stdout {
+                    v.push(sx::tagged("close-stdout", vec![sx::nat(n)]));
                 }
                 if tty != "pp" {
                     v.push(sx::tagged("tty", vec![sx::atom(&tty[0..1]), sx::atom(&tty[1..2])]));
